@@ -17,7 +17,8 @@ RULE_NAMES = {10: 'waitq push (under waitq.lock + thread.lock; primitive lock st
               15: 'timeout wake-up (under thread.lock)', 16: 'thread done + notify joiner (under thread.lock)',
               17: 'standbyq push (under standbyq.lock + thread.lock)', 18: 'standbyq drain',
               20: 'mutex hand-off (under mutex.splock + head thread.lock)', 21: 'semaphore add (under splock)',
-              22: 'semaphore subtract (under splock)', 23: 'rwlock state change (under its mutex)'}
+              22: 'semaphore subtract (under splock)', 23: 'rwlock state change (under its mutex)',
+              24: 'semaphore resume pass try_resume (under splock: the signaller must not touch the semaphore after the waiter it woke can return)'}
 
 
 def run(rules, tier='quick', seed=1, ncases=None):
